@@ -316,7 +316,14 @@ def _parse_marker_var(tokenizer: Tokenizer) -> MarkerVar:
     if tokenizer.check("VARIABLE"):
         return process_env_var(tokenizer.read().text.replace(".", "_"))
     elif tokenizer.check("QUOTED_STRING"):
-        return process_python_str(tokenizer.read().text)
+        span_start = tokenizer.position
+        text = tokenizer.read().text
+        try:
+            return process_python_str(text)
+        except (SyntaxError, ValueError):
+            tokenizer.raise_syntax_error(
+                "Invalid string literal", span_start=span_start
+            )
     else:
         tokenizer.raise_syntax_error(
             message="Expected a marker variable or quoted string"
